@@ -362,8 +362,9 @@ func faultPhase(events []world.Event) string {
 // revTracker remembers, from what the harness itself observed after every step, which spec produced each stored
 // revision's manifest and which revisions were ever seen with status deployed.
 type revTracker struct {
-	everDep map[int]string          // revision -> manifest, observed with status deployed after some step
-	specOf  map[int]world.ChartSpec // revision -> chart spec that produced its manifest (rollbacks copy the target's)
+	everDep         map[int]string          // revision -> manifest, observed with status deployed after some step
+	specOf          map[int]world.ChartSpec // revision -> chart spec that produced its manifest (rollbacks copy the target's)
+	everUninstalled bool                    // some revision was seen uninstalled / uninstalling (uninstall --keep-history)
 }
 
 func newRevTracker() *revTracker {
@@ -373,6 +374,9 @@ func newRevTracker() *revTracker {
 // observe records which revisions were seen deployed and which spec each revision's manifest came from.
 func (j *revTracker) observe(op *world.Op, res *world.Result) {
 	preSet, postSet := revSet(res.Pre), revSet(res.Post)
+	if len(res.Post) == 0 {
+		j.everUninstalled = false
+	}
 	// forget revisions that no longer exist (purge, pruning): revision numbers restart after an uninstall
 	for v := range j.specOf {
 		if _, ok := postSet[v]; !ok {
@@ -428,6 +432,11 @@ func (j *revTracker) observe(op *world.Op, res *world.Result) {
 	for _, r := range res.Post {
 		if r.Status == "deployed" {
 			j.everDep[r.Version] = r.Manifest
+		}
+		if r.Status == "uninstalled" || r.Status == "uninstalling" {
+			// the release was removed on purpose with its history kept: what --atomic should return to afterwards is not
+			// something the property defines; histories that went through this state are not judged on that clause
+			j.everUninstalled = true
 		}
 	}
 }
